@@ -169,6 +169,19 @@ func rtExec(c *Ctx, op string) {
 				return fn.pack(ctx, api.PackType(fmtName), which, pf, api.WarehouseLocation("file://"+which), rio.Monitor{})
 			})
 		}
+		// the same slip through a symbolic link: the target address is a link (outside the fileset) to an entry of the fileset
+		lk := 0
+		for _, e := range s0 {
+			if (e.Kind == 'f' || e.Kind == 'd') && lk < 3 {
+				lk++
+				l := filepath.Join(base, fmt.Sprintf("addr-link-%d", lk))
+				os.Symlink(filepath.Join(src, e.Name), l)
+				safeCall(func() (api.WareID, error) {
+					return fn.pack(ctx, api.PackType(fmtName), src, pf, api.WarehouseLocation("file://"+l), rio.Monitor{})
+				})
+				os.Remove(l)
+			}
+		}
 		s2, _ := Snapshot(src)
 		e1, e1err := Snapshot(empty)
 		if s0.Digest(true) != s2.Digest(true) {
